@@ -10,6 +10,9 @@ Reader = the unread rest of a Go `bytes.Reader` (a byte list).  `bytes.Reader.Re
 EOF iff nothing is left, otherwise copies `min (len p) (remaining)` bytes WITHOUT error (short read,
 the rest of `p` keeps its zero bytes).  `strict` selects the behaviour of the reads inside pkg/scale:
 `false` = plain `Read` (short reads are zero-filled), `true` = `io.ReadFull` (a short read is an error).
+What matters is the read of the DATA of a byte slice: the behaviour of the reads of the compact
+length is provably unobservable through `decodeBytes` (`scaleBytes2_int_irrelevant` in
+TrieCodecLemmas), so one flag suffices whichever combination the tree has.
 Everything outside pkg/scale is fixed by the trie code itself.
 -/
 import Gossamer.Base.Bytes
@@ -173,6 +176,16 @@ def scaleBytes (strict : Bool) (r : Bytes) : Option (Bytes × Bytes) :=
     if len > 4294967295 then none
     else if len = 0 then some ([], r1)
     else readBuf strict len r1
+
+/-- `decodeBytes` with separate behaviours for the reads of the compact length (`si`) and of the
+    data (`sd`) -/
+def scaleBytes2 (si sd : Bool) (r : Bytes) : Option (Bytes × Bytes) :=
+  match compactLen si r with
+  | none => none
+  | some (len, r1) =>
+    if len > 4294967295 then none
+    else if len = 0 then some ([], r1)
+    else readBuf sd len r1
 
 /-- `encodeState.encodeUint` -/
 def compactEnc (n : Nat) : Bytes :=
